@@ -26,70 +26,91 @@ pub struct MacroCase {
     pub b: String,
 }
 
-fn run_macro<V: VirtualFileSystem>(v: &V, mac: &str, a: &str, b: &str) {
+/// The path argument as an expression with a side effect: the first evaluation gives the path, any later one a
+/// decoy of the opposite existence. A macro body that evaluates its argument again for the actual check (instead
+/// of using the path it resolved, and names in its message) then judges another path.
+struct Once<'a> {
+    first: &'a str,
+    later: &'a str,
+    n: std::cell::Cell<u32>,
+}
+impl<'a> Once<'a> {
+    fn get(&self) -> &'a str {
+        let k = self.n.get();
+        self.n.set(k + 1);
+        if k == 0 {
+            self.first
+        } else {
+            self.later
+        }
+    }
+}
+
+fn run_macro<V: VirtualFileSystem>(v: &V, mac: &str, a: &str, b: &str, decoy: &str) {
+    let a = Once { first: a, later: decoy, n: std::cell::Cell::new(0) };
     match mac {
         "exists" => {
-            assert_vfs_exists!(v, a);
+            assert_vfs_exists!(v, a.get());
         },
         "no_exists" => {
-            assert_vfs_no_exists!(v, a);
+            assert_vfs_no_exists!(v, a.get());
         },
         "is_dir" => {
-            assert_vfs_is_dir!(v, a);
+            assert_vfs_is_dir!(v, a.get());
         },
         "no_dir" => {
-            assert_vfs_no_dir!(v, a);
+            assert_vfs_no_dir!(v, a.get());
         },
         "is_file" => {
-            assert_vfs_is_file!(v, a);
+            assert_vfs_is_file!(v, a.get());
         },
         "no_file" => {
-            assert_vfs_no_file!(v, a);
+            assert_vfs_no_file!(v, a.get());
         },
         "is_symlink" => {
-            assert_vfs_is_symlink!(v, a);
+            assert_vfs_is_symlink!(v, a.get());
         },
         "no_symlink" => {
-            assert_vfs_no_symlink!(v, a);
+            assert_vfs_no_symlink!(v, a.get());
         },
         "read_all" => {
-            assert_vfs_read_all!(v, a, b.to_string());
+            assert_vfs_read_all!(v, a.get(), b.to_string());
         },
         "readlink" => {
-            assert_vfs_readlink!(v, a, Path::new(b));
+            assert_vfs_readlink!(v, a.get(), Path::new(b));
         },
         "readlink_abs" => {
-            assert_vfs_readlink_abs!(v, a, b);
+            assert_vfs_readlink_abs!(v, a.get(), b);
         },
         "mkdir_p" => {
-            assert_vfs_mkdir_p!(v, a);
+            assert_vfs_mkdir_p!(v, a.get());
         },
         "mkdir_m" => {
-            assert_vfs_mkdir_m!(v, a, 0o40750);
+            assert_vfs_mkdir_m!(v, a.get(), 0o40750);
         },
         "mkdir_m_sticky" => {
-            assert_vfs_mkdir_m!(v, a, 0o41750);
+            assert_vfs_mkdir_m!(v, a.get(), 0o41750);
         },
         "mkfile" => {
-            assert_vfs_mkfile!(v, a);
+            assert_vfs_mkfile!(v, a.get());
         },
         "write_all" => {
-            assert_vfs_write_all!(v, a, b);
+            assert_vfs_write_all!(v, a.get(), b);
         },
         "write_all_bytes" => {
-            assert_vfs_write_all!(v, a, RAW);
+            assert_vfs_write_all!(v, a.get(), RAW);
         },
         "copyfile" => {
-            assert_vfs_copyfile!(v, a, b);
+            assert_vfs_copyfile!(v, a.get(), b);
         },
         "symlink" => {
-            assert_vfs_symlink!(v, a, b);
+            assert_vfs_symlink!(v, a.get(), b);
         },
         "remove" => {
-            assert_vfs_remove!(v, a);
+            assert_vfs_remove!(v, a.get());
         },
         "remove_all" => {
-            assert_vfs_remove_all!(v, a);
+            assert_vfs_remove_all!(v, a.get());
         },
         _ => {},
     }
@@ -186,7 +207,9 @@ pub fn check_macro(case: &MacroCase) -> CaseResult {
         _ => b.to_string(),
     };
     let a_arg = on(a);
-    let res = if case.stdfs { catch(|| run_macro(&stdv, &case.mac, &a_arg, &b_arg)) } else { catch(|| run_macro(&mem, &case.mac, &a_arg, &b_arg)) };
+    // (a second evaluation of the path expression yields a path of the opposite existence)
+    let decoy = if ka.is_some() { on("/zz-rvh-second-evaluation") } else { on("/") };
+    let res = if case.stdfs { catch(|| run_macro(&stdv, &case.mac, &a_arg, &b_arg, &decoy)) } else { catch(|| run_macro(&mem, &case.mac, &a_arg, &b_arg, &decoy)) };
     // observe afterwards
     let post: Tree = if case.stdfs { tree_from_disk(&pre_dir) } else { tree_from_dump(&mem.verif_dump()) };
     if let Some(d) = cleanup {
@@ -379,7 +402,7 @@ fn setup_spec() -> impl Strategy<Value = OpSpec> {
 }
 
 pub fn run(c: &Ctx) {
-    c.set_rule("states: proptest-generated Memfs states over a 3-name namespace (dirs, files with small contents, links to dirs/files/links/missing targets) built from 2..10 creating calls; for EVERY state: every macro (11 checking, 8 acting; write_all also with a non-UTF-8 payload, mkdir_m also with a sticky-bit mode) x every path of the namespace that exists, a missing child, a missing-parent path, three unclean absolute spellings ('zz/..' detours to a creatable path, to a missing child and to an existing entry) and the empty string (pairs: copyfile/symlink with a second path; read_all/write_all with matching and different data; readlink/readlink_abs with the right text, a wrong one and a proper-suffix of the right one), each invocation on a freshly rebuilt state under catch_unwind; Memfs always, a seeded part on a tmpfs Stdfs sandbox materialised with std::fs. Oracle: checking macros panic <=> the reference predicate over the pre-state is false and leave the state alone; acting macros: never 'no panic and postcondition false', never 'panic although postcondition holds', never a panic of a creating macro on an unobstructed path (symlink: a new link points where vfs.symlink(link, target) points, also for targets relative to the link's directory; an existing link is untouched); every panic message names the macro and shows the resolved path. testing::capture_panic returns panic messages of 0..70 000 bytes (ASCII and multi-byte) unaltered. Non-trivial = invocation on an existing entry of another kind than the macro asks for, a link, or a near-miss second argument; distinct by (state, macro, arguments).");
+    c.set_rule("states: proptest-generated Memfs states over a 3-name namespace (dirs, files with small contents, links to dirs/files/links/missing targets) built from 2..10 creating calls; for EVERY state: every macro (11 checking, 8 acting; write_all also with a non-UTF-8 payload, mkdir_m also with a sticky-bit mode) x every path of the namespace that exists, a missing child, a missing-parent path, three unclean absolute spellings ('zz/..' detours to a creatable path, to a missing child and to an existing entry) and the empty string (pairs: copyfile/symlink with a second path; read_all/write_all with matching and different data; readlink/readlink_abs with the right text, a wrong one and a proper-suffix of the right one), each invocation on a freshly rebuilt state under catch_unwind, the path given as an expression whose second evaluation would name a path of the opposite existence; Memfs always, a seeded part on a tmpfs Stdfs sandbox materialised with std::fs. Oracle: checking macros panic <=> the reference predicate over the pre-state is false and leave the state alone; acting macros: never 'no panic and postcondition false', never 'panic although postcondition holds', never a panic of a creating macro on an unobstructed path (symlink: a new link points where vfs.symlink(link, target) points, also for targets relative to the link's directory; an existing link is untouched); every panic message names the macro and shows the resolved path. testing::capture_panic returns panic messages of 0..70 000 bytes (ASCII and multi-byte) unaltered. Non-trivial = invocation on an existing entry of another kind than the macro asks for, a link, or a near-miss second argument; distinct by (state, macro, arguments).");
     c.assume("no_dir!/no_file! on an existing entry of another kind: pass or panic both admitted (docs and code disagree); copyfile! into an existing directory: not asserted");
     let n = c.tier.pick(1500, 20000);
     let cfg = GenCfg { names: NAMES3, avoid_through_link: true, plain_spelling: true, wild: false, handles: false };
